@@ -117,6 +117,8 @@ class World:
     # -- violations / faults ------------------------------------------------
     def violation(self, cls, signature, message, detail=None):
         v = Violation(cls, signature, message, detail)
+        if any(o.key() == v.key() for o in self.violations):
+            return v          # one report per (class, signature) and run
         self.violations.append(v)
         self.log('violation', cls=cls, signature=signature)
         return v
